@@ -409,11 +409,13 @@ class _mplmap:
     bound_note = BOUND
 
     def configs():
-        return [{"show_zero": True, "density": False}, {"show_zero": False, "density": False}, {"show_zero": True, "density": True}]
+        return [{"show_zero": True, "density": False}, {"show_zero": False, "density": False}, {"show_zero": True, "density": True},
+                {"show_zero": False, "density": False, "negative": True}]      # contents of any sign (differences of histograms)
 
     def inputs(b):
         bins = [make_binning(b, f"B{i}", "static", s) for i, s in enumerate((1, 2))]
-        h = histnd(b, "h", bins, (1, 2), dtype="float64", meta={"name": "nm", "title": "tt", "axis_names": ("xx", "yy")})
+        h = histnd(b, "h", bins, (1, 2), dtype="float64", meta={"name": "nm", "title": "tt", "axis_names": ("xx", "yy")},
+                   wf=not getattr(b.cfg, "negative", False))
         b.assume(total(F(h)) > 0)
         return dict(h=h, ax=DrawAxes())
 
@@ -509,8 +511,11 @@ class _hbar:
     bound_note = "ascii hbar: decided by the cross-check on the real code only (string repetition by a symbolic count is outside the subset)"
     standin = True
 
+    def configs():
+        return [{"dtype": "int64"}, {"dtype": "float64"}]
+
     def inputs(b):
-        h = mk_hist(b, "h", 1, 2, "static", "int64")
+        h = mk_hist(b, "h", 1, 2, "static", b.cfg.dtype)
         b.assume(total(F(h)) > 0)
         return dict(h1=h, width=8)
 
